@@ -5,7 +5,7 @@ import contracts.core, contracts.dt_try, contracts.dt_string  # noqa
 from native import c14 as native_c14
 
 T = 'DocumentTemplate.DT_Try.Try'
-FUNCS = [T + '.match_base'] + [T + '.find_handler#handlers%d' % k for k in range(0, 5)] + [
+FUNCS = [T + '.match_base', T + '.find_handler#handlersN'] + [T + '.find_handler#handlers%d' % k for k in range(0, 5)] + [
     T + '.render_try_except#C14', T + '.render_try_finally#C14',
     'DocumentTemplate.DT_Raise.Raise.render#C14', 'DocumentTemplate.DT_Return.ReturnTag.render#C14',
     'DocumentTemplate.DT_String.String.__call__#subtemplate']
